@@ -239,7 +239,7 @@ class _P:
         if tk[0] == "int":
             return Val("int", int(tk[1]))
         if tk[0] == "flt":
-            return Val("flt", (tk[1][0], _fltval(tk[1])))
+            return Val("flt", (tk[1][0], _fltval(tk[1]), tk[1][2:]))
         if tk[0] == "ident" and tk[1] == "thread":
             n = self.expect("name")
             if n[1][0] != "$":
@@ -379,7 +379,7 @@ class _P:
                         d.items.append(DataItem("int", cls, int(tk[1])))
                     elif tk[0] == "flt":
                         self.next()
-                        d.items.append(DataItem("flt", cls, (tk[1][0], _fltval(tk[1]))))
+                        d.items.append(DataItem("flt", cls, (tk[1][0], _fltval(tk[1]), tk[1][2:])))
                     elif tk[0] == "str":
                         self.next()
                         if cls != "b":
@@ -637,7 +637,8 @@ def data_image(d):
                 out.extend((it.value % (1 << (8 * n))).to_bytes(n, "little"))
         elif it.kind == "flt":
             if it.cls == "s":
-                out.extend(struct.pack("<f", _to_f32(it.value[1])))
+                from .il2c import round_to_f32
+                out.extend(struct.pack("<f", round_to_f32(it.value[2])))
             elif it.cls == "d":
                 out.extend(struct.pack("<d", it.value[1]))
             else:
